@@ -148,4 +148,85 @@ example : impl_ibig_divrem_euclid .Negative 7 .Positive 3 = (-3, 2) := by
 example : (impl_ubig_ibig_divrem .Positive 7 .Negative 3).2 = impl_ubig_ibig_rem .Positive 7 .Negative 3 :=
   (ubig_ibig_forms_agree .Negative 7 3 (by decide) (by decide)).1
 
+/-
+  C15, round 7 — the primitive-operand forms `big.op(Big::from(prim)).try_into().unwrap()`: EXACT failing-input classes.
+  Until now the three "does not fit" clauses had only a counterexample (`ibig_rem_unsigned_counterexample`,
+  `unsigned_div_negative_ibig_counterexample`, `signed_div_ibig_counterexample` at k = 7).  The theorems below decide, for
+  every operand pair, whether the primitive form returns the big-operand form's value or panics; the `if` conditions are
+  literally the `py` predicates of the two recorded integer findings of this property (known_findings.jsonl, C15 lines
+  "impl Rem<uN>… for IBig" and "impl Div<IBig> for iN/uN").
+-/
+
+/-- `IBig % uN` / `IBig.div_rem(uN)` / `div_rem_assign(uN)` (divisor `0 < p ≤ uN::MAX = hi`), every dividend: the primitive
+    forms panic exactly for a NEGATIVE dividend with a non-zero remainder, and return `IBig % IBig` otherwise
+    (finding predicate: `I(3) < 0 and 0 < I(4) and abs(I(3)) % I(4) != 0`) -/
+theorem ibig_rem_unsigned_exact (a p hi : Int) (hp : 0 < p) (hhi : p ≤ hi) :
+    primForm 0 hi (Int.tmod a p) = if a < 0 ∧ (-a) % p ≠ 0 then none else some (Int.tmod a p) := by
+  unfold primForm
+  by_cases ha : a < 0
+  · have e : Int.tmod a p = -((-a) % p) := by
+      have h1 : Int.tmod (-(-a)) p = -(Int.tmod (-a) p) := Int.neg_tmod (-a) p
+      rw [Int.neg_neg] at h1
+      rw [h1, Int.tmod_eq_emod_of_nonneg (by omega : 0 ≤ -a)]
+    have h0 : 0 ≤ (-a) % p := Int.emod_nonneg _ (by omega)
+    have h2 : (-a) % p < p := Int.emod_lt_of_pos _ hp
+    rw [e]
+    generalize (-a) % p = r at h0 h2 ⊢
+    by_cases hr : r = 0
+    · subst hr
+      rw [if_pos ⟨by omega, by omega⟩, if_neg (by simp)]
+    · rw [if_neg (by omega), if_pos ⟨ha, hr⟩]
+  · have h1 : 0 ≤ Int.tmod a p := Int.tmod_nonneg p (by omega)
+    have h2 : Int.tmod a p < p := Int.tmod_lt_of_pos a hp
+    rw [if_pos ⟨h1, by omega⟩, if_neg (fun h => ha h.1)]
+
+/-- `uN / IBig` (dividend `0 ≤ p ≤ uN::MAX = hi`, output type `uN`), every non-zero divisor: the primitive form panics exactly
+    when the quotient is negative, i.e. for a negative divisor of magnitude at most the dividend, and returns `IBig / IBig` otherwise
+    (finding predicate, unsigned part: `0 <= I(3) and I(4) < 0 and I(3) >= -I(4)`) -/
+theorem unsigned_div_ibig_exact (p b hi : Int) (hp : 0 ≤ p) (hhi : p ≤ hi) (hb : b ≠ 0) :
+    primForm 0 hi (Int.tdiv p b) = if b < 0 ∧ -b ≤ p then none else some (Int.tdiv p b) := by
+  by_cases hneg : b < 0
+  · have e : Int.tdiv p b = -(p / (-b)) := by
+      have h1 : Int.tdiv p (-(-b)) = -(Int.tdiv p (-b)) := Int.tdiv_neg p (-b)
+      rw [Int.neg_neg] at h1
+      rw [h1, Int.tdiv_eq_ediv_of_nonneg hp]
+    have hq0 : 0 ≤ p / (-b) := Int.ediv_nonneg hp (by omega)
+    have hq1 : p / (-b) ≤ p := Int.ediv_le_self _ hp
+    unfold primForm
+    rw [e]
+    by_cases hle : -b ≤ p
+    · have hq : 1 ≤ p / (-b) := Int.le_ediv_of_mul_le (by omega) (by omega)
+      rw [if_neg (by omega), if_pos ⟨hneg, hle⟩]
+    · have hq : p / (-b) = 0 := Int.ediv_eq_zero_of_lt hp (by omega)
+      rw [hq]
+      rw [if_pos ⟨by omega, by omega⟩, if_neg (fun h => hle h.2)]
+  · rw [unsigned_div_ubig_fits p b hi hp hhi (by omega), if_neg (fun h => hneg h.1)]
+
+/-- `iN / IBig` (dividend in `[-2^k, 2^k-1]`, output type `iN`), every non-zero divisor: the primitive form panics exactly
+    for `iN::MIN / -1` and returns `IBig / IBig` otherwise (finding predicate, signed part: `I(4) == -1 and I(3) == -2^(N-1)`) -/
+theorem signed_div_ibig_exact (p b : Int) (k : Nat) (hlo : -(2 ^ k : Int) ≤ p) (hhi : p ≤ 2 ^ k - 1) (hb : b ≠ 0) :
+    primForm (-(2 ^ k : Int)) (2 ^ k - 1) (Int.tdiv p b)
+      = if p = -(2 ^ k : Int) ∧ b = -1 then none else some (Int.tdiv p b) := by
+  by_cases h : p = -(2 ^ k : Int) ∧ b = -1
+  · rw [if_pos h]
+    obtain ⟨rfl, rfl⟩ := h
+    have : Int.tdiv (-(2 ^ k : Int)) (-1) = 2 ^ k := by rw [Int.tdiv_neg, Int.tdiv_one, Int.neg_neg]
+    unfold primForm
+    rw [this, if_neg (by omega)]
+  · rw [if_neg h, signed_div_ibig_fits p b k hlo hhi hb h]
+
+-- non-vacuity: both sides of every `if`, on non-trivial operands
+example : primForm 0 255 (Int.tmod (-1000) 7) = none := by
+  rw [ibig_rem_unsigned_exact (-1000) 7 255 (by decide) (by decide)]; decide
+example : primForm 0 255 (Int.tmod (-1001) 7) = some 0 := by
+  rw [ibig_rem_unsigned_exact (-1001) 7 255 (by decide) (by decide)]; decide
+example : primForm 0 255 (Int.tdiv 200 (-7)) = none := by
+  rw [unsigned_div_ibig_exact 200 (-7) 255 (by decide) (by decide) (by decide)]; decide
+example : primForm 0 255 (Int.tdiv 200 (-201)) = some 0 := by
+  rw [unsigned_div_ibig_exact 200 (-201) 255 (by decide) (by decide) (by decide)]; decide
+example : primForm (-(2 ^ 63 : Int)) (2 ^ 63 - 1) (Int.tdiv (-(2 ^ 63 : Int)) (-1)) = none := by
+  rw [signed_div_ibig_exact (-(2 ^ 63 : Int)) (-1) 63 (by decide) (by decide) (by decide)]; decide
+example : primForm (-(2 ^ 63 : Int)) (2 ^ 63 - 1) (Int.tdiv (-(2 ^ 63 : Int)) 3) = some (-3074457345618258602) := by
+  rw [signed_div_ibig_exact (-(2 ^ 63 : Int)) 3 63 (by decide) (by decide) (by decide)]; decide
+
 end Dashu.Props.C15
